@@ -548,6 +548,11 @@ func (p *c18) runLiterals(r *core.CaseResult) {
 		{"SELECT DECODE(ENCODE('10', 'hex'), 'hex') AS v FROM t WHERE n < 10", []any{map[string]any{"v": "10"}, map[string]any{"v": "10"}}},
 		{"SELECT CHANGETYPE('1', 'double') AS d, CHANGETYPE(1, 'string') AS s, '1' AS l, 1 AS m FROM t WHERE n = 1", []any{map[string]any{"d": 1.0, "s": "1", "l": "1", "m": 1.0}}},
 		{"SELECT TO_UPPER('1e3') AS v, 1e3 AS m FROM t WHERE n = 1000 OR n = 2", []any{map[string]any{"v": "1E3", "m": 1000.0}}},
+		// tuples handed on as arrays: signed numbers, unary operators and CASE among the elements
+		{"SELECT ARRAY((-1, 'x')) AS v FROM t WHERE n = 1", []any{map[string]any{"v": []any{[]any{-1.0, "x"}}}}},
+		{"SELECT FIRST((-n, n)) AS v, LAST((1, -2.5)) AS w FROM t WHERE n = 2", []any{map[string]any{"v": -2.0, "w": -2.5}}},
+		{"SELECT ARRAY((~n, -n + 1, CASE WHEN n > 1 THEN 'big' ELSE 'small' END)) AS v FROM t WHERE n = 2", []any{map[string]any{"v": []any{[]any{-3.0, -1.0, "big"}}}}},
+		{"SELECT ELEMENTAT((0, -1, 2), 1) AS v FROM t WHERE n = 1", []any{map[string]any{"v": -1.0}}},
 	}
 	for round := 0; round < 2; round++ {
 		for _, c := range cases {
